@@ -103,6 +103,9 @@ func main() {
 					fmt.Println("  inlined:", keys(rep.Ctx.Inlined))
 					fmt.Println("  opaque:", keys(rep.Ctx.Opaque))
 					fmt.Println("  contracts used:", keys(rep.Ctx.UsedContracts))
+					for _, p := range rep.Ctx.Pruned {
+						fmt.Println("  path not verified beyond:", p)
+					}
 				}
 			}
 		}
